@@ -6,7 +6,11 @@ Inductive result :=
   | RUnit | RVal (v : N) | ROk (v : N) | RErr (v : N) | RBool (b : bool)
   | RX | REmpty | RDisc.
 
-Inductive logline := LOp (body pc : nat) (r : result) | LDrop (k : nat).
+Inductive logline :=
+  | LOp (body pc : nat) (r : result)
+  | LDrop (k : nat)                      (* payload of Arc k dropped *)
+  | LInitTls (k body : nat) | LDropTls (k body : nat)
+  | LInitLazy (k : nat) | LDropLazy (k : nat).
 
 Inductive blockcond := BNever | BAlways | BMutexLocked | BRwWrite | BRwAny | BChanEmpty.
 
@@ -67,6 +71,8 @@ Inductive micro :=
   | MArcGetMut (k i : nat) (unwrap : bool)
   | MArcGetMutPost (k i : nat) (unwrap : bool)
   | MTrackDrop (k : nat)
+  | MTlsWith (k : nat)
+  | MLazyGet (k : nat)
   | MPanic
   | MExplore | MStop | MSkip
   | MNWaitBegin (n : nat)
@@ -87,36 +93,41 @@ Record thread := mkThread {
   t_cont : list micro;
   t_body : nat;
   t_pc : nat;
-  t_guards : list (gkind * nat)
+  t_guards : list (gkind * nat);
+  t_tls : list nat                     (* thread-local keys initialised by this thread *)
 }.
 
 Definition thread_new (body : nat) (cont : list micro) : thread :=
-  mkThread (Runnable false) None vv_new vv_new vv_new None 0 cont body 0 [].
+  mkThread (Runnable false) None vv_new vv_new vv_new None 0 cont body 0 [] [].
 
 Definition th_set_state (t : thread) (s : tstate) : thread :=
   mkThread s (t_op t) (t_caus t) (t_rel t) (t_dpor t) (t_last_yield t) (t_yield_count t)
-           (t_cont t) (t_body t) (t_pc t) (t_guards t).
+           (t_cont t) (t_body t) (t_pc t) (t_guards t) (t_tls t).
 Definition th_set_op (t : thread) (o : option operation) : thread :=
   mkThread (t_state t) o (t_caus t) (t_rel t) (t_dpor t) (t_last_yield t) (t_yield_count t)
-           (t_cont t) (t_body t) (t_pc t) (t_guards t).
+           (t_cont t) (t_body t) (t_pc t) (t_guards t) (t_tls t).
 Definition th_set_caus (t : thread) (v : vv) : thread :=
   mkThread (t_state t) (t_op t) v (t_rel t) (t_dpor t) (t_last_yield t) (t_yield_count t)
-           (t_cont t) (t_body t) (t_pc t) (t_guards t).
+           (t_cont t) (t_body t) (t_pc t) (t_guards t) (t_tls t).
 Definition th_set_rel (t : thread) (v : vv) : thread :=
   mkThread (t_state t) (t_op t) (t_caus t) v (t_dpor t) (t_last_yield t) (t_yield_count t)
-           (t_cont t) (t_body t) (t_pc t) (t_guards t).
+           (t_cont t) (t_body t) (t_pc t) (t_guards t) (t_tls t).
 Definition th_set_dpor (t : thread) (v : vv) : thread :=
   mkThread (t_state t) (t_op t) (t_caus t) (t_rel t) v (t_last_yield t) (t_yield_count t)
-           (t_cont t) (t_body t) (t_pc t) (t_guards t).
+           (t_cont t) (t_body t) (t_pc t) (t_guards t) (t_tls t).
 Definition th_set_cont (t : thread) (c : list micro) : thread :=
   mkThread (t_state t) (t_op t) (t_caus t) (t_rel t) (t_dpor t) (t_last_yield t) (t_yield_count t)
-           c (t_body t) (t_pc t) (t_guards t).
+           c (t_body t) (t_pc t) (t_guards t) (t_tls t).
 Definition th_set_pc (t : thread) (pc : nat) : thread :=
   mkThread (t_state t) (t_op t) (t_caus t) (t_rel t) (t_dpor t) (t_last_yield t) (t_yield_count t)
-           (t_cont t) (t_body t) pc (t_guards t).
+           (t_cont t) (t_body t) pc (t_guards t) (t_tls t).
 Definition th_set_guards (t : thread) (g : list (gkind * nat)) : thread :=
   mkThread (t_state t) (t_op t) (t_caus t) (t_rel t) (t_dpor t) (t_last_yield t) (t_yield_count t)
-           (t_cont t) (t_body t) (t_pc t) g.
+           (t_cont t) (t_body t) (t_pc t) g (t_tls t).
+
+Definition th_set_tls (t : thread) (l : list nat) : thread :=
+  mkThread (t_state t) (t_op t) (t_caus t) (t_rel t) (t_dpor t) (t_last_yield t) (t_yield_count t)
+           (t_cont t) (t_body t) (t_pc t) (t_guards t) l.
 
 Definition is_runnable (t : thread) : bool :=
   match t_state t with Runnable _ => true | _ => false end.
@@ -134,7 +145,7 @@ Definition set_blocked (t : thread) : thread := th_set_state t Blocked.
 Definition set_yield (me : nat) (t : thread) : thread :=
   mkThread Yielded (t_op t) (t_caus t) (t_rel t) (t_dpor t)
            (Some (vv_get (t_caus t) me)) (S (t_yield_count t))
-           (t_cont t) (t_body t) (t_pc t) (t_guards t).
+           (t_cont t) (t_body t) (t_pc t) (t_guards t) (t_tls t).
 
 (* Thread::set_unparked *)
 Definition set_unparked (t : thread) : thread :=
@@ -176,36 +187,42 @@ Record exec := mkExec {
   e_spawned : list (option (nat * nat)); (* per body: (thread id, join Notify index) *)
   e_joined : list bool;
   e_log : list logline;                (* newest first *)
-  e_bodies : list (list micro)         (* the expanded program *)
+  e_bodies : list (list micro);        (* the expanded program *)
+  e_lazy : option (list (nat * (nat * vv)))
+      (* lazy_statics: None after the main thread dropped them; key -> (cell index, sync view) *)
 }.
 
 Definition ex_set_path (e : exec) (p : path) : exec :=
   mkExec p (e_threads e) (e_active e) (e_seqcst e) (e_objects e) (e_max_threads e)
-         (e_h e) (e_spawned e) (e_joined e) (e_log e) (e_bodies e).
+         (e_h e) (e_spawned e) (e_joined e) (e_log e) (e_bodies e) (e_lazy e).
 Definition ex_set_threads (e : exec) (t : list thread) : exec :=
   mkExec (e_path e) t (e_active e) (e_seqcst e) (e_objects e) (e_max_threads e)
-         (e_h e) (e_spawned e) (e_joined e) (e_log e) (e_bodies e).
+         (e_h e) (e_spawned e) (e_joined e) (e_log e) (e_bodies e) (e_lazy e).
 Definition ex_set_active (e : exec) (a : option nat) : exec :=
   mkExec (e_path e) (e_threads e) a (e_seqcst e) (e_objects e) (e_max_threads e)
-         (e_h e) (e_spawned e) (e_joined e) (e_log e) (e_bodies e).
+         (e_h e) (e_spawned e) (e_joined e) (e_log e) (e_bodies e) (e_lazy e).
 Definition ex_set_seqcst (e : exec) (v : vv) : exec :=
   mkExec (e_path e) (e_threads e) (e_active e) v (e_objects e) (e_max_threads e)
-         (e_h e) (e_spawned e) (e_joined e) (e_log e) (e_bodies e).
+         (e_h e) (e_spawned e) (e_joined e) (e_log e) (e_bodies e) (e_lazy e).
 Definition ex_set_objects (e : exec) (o : list object) : exec :=
   mkExec (e_path e) (e_threads e) (e_active e) (e_seqcst e) o (e_max_threads e)
-         (e_h e) (e_spawned e) (e_joined e) (e_log e) (e_bodies e).
+         (e_h e) (e_spawned e) (e_joined e) (e_log e) (e_bodies e) (e_lazy e).
 Definition ex_set_h (e : exec) (h : list hobj) : exec :=
   mkExec (e_path e) (e_threads e) (e_active e) (e_seqcst e) (e_objects e) (e_max_threads e)
-         h (e_spawned e) (e_joined e) (e_log e) (e_bodies e).
+         h (e_spawned e) (e_joined e) (e_log e) (e_bodies e) (e_lazy e).
 Definition ex_set_spawned (e : exec) (s : list (option (nat * nat))) : exec :=
   mkExec (e_path e) (e_threads e) (e_active e) (e_seqcst e) (e_objects e) (e_max_threads e)
-         (e_h e) s (e_joined e) (e_log e) (e_bodies e).
+         (e_h e) s (e_joined e) (e_log e) (e_bodies e) (e_lazy e).
 Definition ex_set_joined (e : exec) (j : list bool) : exec :=
   mkExec (e_path e) (e_threads e) (e_active e) (e_seqcst e) (e_objects e) (e_max_threads e)
-         (e_h e) (e_spawned e) j (e_log e) (e_bodies e).
+         (e_h e) (e_spawned e) j (e_log e) (e_bodies e) (e_lazy e).
 Definition ex_set_log (e : exec) (l : list logline) : exec :=
   mkExec (e_path e) (e_threads e) (e_active e) (e_seqcst e) (e_objects e) (e_max_threads e)
-         (e_h e) (e_spawned e) (e_joined e) l (e_bodies e).
+         (e_h e) (e_spawned e) (e_joined e) l (e_bodies e) (e_lazy e).
+
+Definition ex_set_lazy (e : exec) (l : option (list (nat * (nat * vv)))) : exec :=
+  mkExec (e_path e) (e_threads e) (e_active e) (e_seqcst e) (e_objects e) (e_max_threads e)
+         (e_h e) (e_spawned e) (e_joined e) (e_log e) (e_bodies e) l.
 
 Definition upd_thread (e : exec) (i : nat) (f : thread -> thread) : exec :=
   ex_set_threads e (list_upd (e_threads e) i f).
